@@ -20,8 +20,13 @@ TRUSTED = ["Python names genname(munge(x)) are modelled as structured pairs (col
            "CPython executes the generated AST as C01/Py.v's semantics states",
            "basilisp's analyzer and the runtime helpers called by generated code (vector, the tracing fn) are primitives of the model"]
 ASSUMPTIONS = ["proofs cover the first-order core (const, local, if, do, let*, calls), loop*/recur (C01L) and "
-               "throw/try/catch/finally (C01X); fn*/closures and def are covered by the executable full-fragment "
-               "model and the correspondence run only"]
+               "throw/try/catch/finally (C01X), each with the core, and fn*/closures/invocation with the core (C01C); the "
+               "combinations (closures inside loops or handlers, def, named fns) are covered by the executable "
+               "full-fragment model and the correspondence run only",
+               "C01C abstracts munge as injective (programs with a munge collision involving a parameter are run "
+               "through the full-fragment model instead: F-01c) and restricts a called function's view of its "
+               "defining frame to the names generated before the definition (Python captures exactly the free "
+               "variables)"]
 FINDINGS = {
     "F-01a": lambda c, o, tag: bool(tag & 2),     # closure over a loop-bound local
     "F-01c": lambda c, o, tag: bool(tag & 4),     # munge collision involving a fn parameter
